@@ -372,7 +372,7 @@ func Run(c *core.Ctx) error {
 	if c.WantGen("deep") {
 		for cas, dc := range deepCases(c.Thorough()) {
 			if c.Want("deep", cas) {
-				deepValue(c, t, cas, dc, c.Pick(130, 520))
+				deepValue(c, t, cas, dc, c.Pick(130, 300))
 			}
 		}
 	}
